@@ -42,7 +42,7 @@ def build(ctx):
 def gen_cases(seed, tier, shard):
     """Deterministic list of (non-pool) history lines of one shard."""
     rnd = random.Random(seed)
-    scale = 1 if tier == 'quick' else 40
+    scale = 1 if tier == 'quick' else 15
     cases = []
 
     def add(kind, line):
@@ -70,7 +70,7 @@ def gen_cases(seed, tier, shard):
 
 def gen_pool_cases(seed, tier):
     rnd = random.Random(seed ^ 0xC12)
-    n = 240 if tier == 'quick' else 6000
+    n = 240 if tier == 'quick' else 3000
     out = []
     for _ in range(n):
         out.append({'kind': 'pool', 'expect': 'ok', 'nt': False,
